@@ -93,6 +93,10 @@ type FuncVC struct {
 	calledContracts map[string]bool
 	lockHeld map[string]bool
 	dry      dryInfo
+	lastSpecResults []Val
+	storeLog []storeRec
+	softNotes []string
+	freshRefs map[string]bool
 }
 
 func (fv *FuncVC) note(format string, a ...interface{}) {
@@ -161,11 +165,76 @@ func (fv *FuncVC) getHeap(st *State, name string) string {
 	return c
 }
 
-func (fv *FuncVC) setHeap(st *State, name, term string) { st.heaps[name] = term }
+type storeRec struct{ heap, ref string }
+
+// topArgs splits "(op a b c)" into [op a b c] (top-level s-expressions).
+func topArgs(t string) []string {
+	if len(t) < 2 || t[0] != '(' {
+		return nil
+	}
+	t = t[1 : len(t)-1]
+	var out []string
+	depth, start := 0, -1
+	for i := 0; i < len(t); i++ {
+		c := t[i]
+		switch {
+		case c == '(':
+			if depth == 0 && start < 0 {
+				start = i
+			}
+			depth++
+		case c == ')':
+			depth--
+			if depth == 0 {
+				out = append(out, t[start:i+1])
+				start = -1
+			}
+		case c == ' ' || c == '\n':
+			if depth == 0 && start >= 0 {
+				out = append(out, t[start:i])
+				start = -1
+			}
+		default:
+			if depth == 0 && start < 0 {
+				start = i
+			}
+		}
+	}
+	if start >= 0 {
+		out = append(out, t[start:])
+	}
+	return out
+}
+
+func (fv *FuncVC) setHeap(st *State, name, term string) {
+	if a := topArgs(term); len(a) == 4 && a[0] == "store" {
+		fv.storeLog = append(fv.storeLog, storeRec{name, a[2]})
+	} else {
+		fv.storeLog = append(fv.storeLog, storeRec{name, "*"})
+	}
+	// name long update chains (SSA style) to keep terms small
+	if len(term) > 120 {
+		c := fv.th.freshConst(sanitize(name), fv.heapSort[name])
+		fv.addFactRaw(mkEq(c, term))
+		term = c
+	}
+	st.heaps[name] = term
+}
+
+// named abbreviates a long term by a fresh constant defined equal to it.
+func (fv *FuncVC) named(v Val, base string) Val {
+	if len(v.T) > 160 {
+		c := fv.th.freshConst(base, v.S)
+		fv.addFactRaw(mkEq(c, v.T))
+		v.T = c
+	}
+	return v
+}
 
 // havocAllHeaps: forget every heap (a call to unknown code); alloc only grows.
 func (fv *FuncVC) havocAllHeaps(st *State) {
 	oldAlloc := fv.getHeap(st, "alloc")
+	fv.storeLog = append(fv.storeLog, storeRec{"*", "*"})
 	fv.epochCtr++
 	st.epoch = fv.epochCtr
 	st.heaps = map[string]string{}
@@ -174,6 +243,7 @@ func (fv *FuncVC) havocAllHeaps(st *State) {
 }
 
 func (fv *FuncVC) havocHeap(st *State, name string) {
+	fv.storeLog = append(fv.storeLog, storeRec{name, "*"})
 	if name == "alloc" {
 		oldAlloc := fv.getHeap(st, "alloc")
 		n := fv.th.freshConst(sanitize(name), fv.heapSort[name])
@@ -224,6 +294,7 @@ func (fv *FuncVC) declMapHeaps(k, v Sort) (string, string, string) {
 // freshRef allocates a new reference.
 func (fv *FuncVC) freshRef(st *State, base string) string {
 	r := fv.th.freshConst(base, SRef)
+	fv.freshRefs[r] = true
 	al := fv.getHeap(st, "alloc")
 	fv.addFact(st, mkAnd(mkNot(mkEq(r, "nil")), mkNot(sx("select", al, r))))
 	fv.setHeap(st, "alloc", sx("store", al, r, "true"))
@@ -239,7 +310,7 @@ func (fv *FuncVC) allocFact(st *State, v Val, depth int) {
 	case SSlice:
 		al := fv.getHeap(st, "alloc")
 		fv.addFact(st, mkAnd(sx(">=", sx("sl_len", v.T), "0"),
-			mkOr(mkEq(sx("sl_ref", v.T), "nil"), sx("select", al, sx("sl_ref", v.T)))))
+			mkOr(mkAnd(mkEq(sx("sl_ref", v.T), "nil"), mkEq(sx("sl_len", v.T), "0")), sx("select", al, sx("sl_ref", v.T)))))
 		if v.GoT != nil {
 			if arr, ok := types.Unalias(v.GoT).Underlying().(*types.Array); ok {
 				fv.addFact(st, mkEq(sx("sl_len", v.T), intLit(arr.Len())))
